@@ -705,6 +705,21 @@ fn exec_op(w: &Rc<World>, op: &str, _in_cb: bool) {
                 }
             }
         }
+        "churn" => {
+            // N times: insert a source without any fd and remove it again (slot reuse, generation bumps)
+            for _ in 0..num(1) {
+                let plan = Rc::new(RefCell::new(Plan::default()));
+                let c = Custom::<false> {
+                    k: usize::MAX,
+                    subs: Vec::new(),
+                    plan,
+                    log: Rc::new(RefCell::new(Vec::new())),
+                };
+                if let Ok(t) = w.handle().insert_source(c, |_, _, _| Ok(PostAction::Continue)) {
+                    w.handle().remove(t);
+                }
+            }
+        }
         "insert" => insert(w, num(1), false),
         "insertd" => insert(w, num(1), true),
         "remove" => {
@@ -1076,7 +1091,8 @@ fn run_case(lines: &[String], out: &mut impl Write, tick_ms: u64) {
     for l in rest {
         writeln!(out, "{}", l).unwrap();
     }
-    if straddle {
+    // logical time only matters to histories with timers
+    if straddle && lines.iter().any(|l| l.contains("timer")) {
         writeln!(out, "timing-inconclusive").unwrap();
     }
 }
